@@ -724,8 +724,9 @@ Proof.
       * destruct (view_inv _ _ (view_ae_commit c None s7)) as (_ & _ & _ & _ & _ & _ & _ & _ & _ & _ & _ & X). now rewrite X.
 Qed.
 
-(* what a delivered message can make the node fire: LEADER_CHANGED (a new leader shows up),
-   or the error code an apply_command_response carries *)
+(* what a delivered message can make the node fire: LEADER_CHANGED (a new leader shows up, or the
+   leader's positive answer to a forwarded command arrives after its index has been applied here:
+   a late answer), or the error code an apply_command_response carries *)
 Definition from_message (m : msg) (x : N * N * N) : Prop :=
   is_leader_changed x \/ exists req a b, m = ApplyResp req false a b /\ snd (fst x) = 0 /\ snd x = a.
 
@@ -775,7 +776,10 @@ Proof.
     unfold on_message in A, H. rewrite A. split; [|constructor].
     destruct (aget req (wait_reply n)) as [cbk|].
     + destruct H as [_ H]. destruct okr.
-      * destruct H as [-> _]. constructor.
+      * destruct (a <=? applied n).
+        -- destruct H as [_ ->]. destruct cbk as [|id|rn rid]; constructor; auto.
+           left. split; reflexivity.
+        -- destruct H as [-> _]. constructor.
       * destruct H as [_ ->]. destruct cbk as [|id|rn rid]; constructor; auto.
         right. exists req, a, b. auto.
     + destruct H as [_ ->]. constructor.
